@@ -927,6 +927,7 @@ func Run(ctx *core.Ctx) {
 		defer rwg.Done()
 		dualSubscription(ctx, bin)
 		enterExitProbe(ctx, bin)
+		unsubscribeProbe(ctx, bin)
 	}()
 	defer rwg.Wait()
 	for i, c := range cfgs {
